@@ -437,13 +437,15 @@ def unit_foreign(ctx):
 
 
 def unit_language(ctx):
-    parts = ["#", " ", "language", ":", "fr", "en", "no-such", "x", "\t", "\n", "Language", "_", "-", "é", "　"]
+    parts = ["#", " ", "language", ":", "fr", "en", "no-such", "x", "\t", "\n", "Language", "_", "-", "é", "　",
+             "\u017f", "\u212a", "\u0131", "\u0130", "\u017fk", "\u212a"]      # letters that Unicode case folding maps onto ASCII ones
     r = rng("lang")
     reqs = []
     for spelled in ["#language:fr", "# language : fr ", "  #language: en-tx\n", "#language:", "#language: fr x", "# language: a_b-C",
                     "#  language:\tfr\r\n", "#language: fr#", "#Language: fr", "# language: no-such", "    # language: no-such  ",
                     "#language:fr\n\n", "　#language: ja", "#language: em", "#language: en2", "# language: v2", "# language: français", "#language: en_",
-                    "# language: é", "#language: 2", "# language: fr2 ", "#language: en.", "# language: sr-Cyrl", "# language: SR-cyrl", "#language: EN"]:
+                    "# language: é", "#language: 2", "# language: fr2 ", "#language: en.", "# language: sr-Cyrl", "# language: SR-cyrl", "#language: EN",
+                    "# language: \u017fk", "# language: \u212a", "#language: p\u0131", "# language: \u0130t", "# language: en\u017f", "# \u017fanguage: en"]:
         for kind in ("Language", "Comment"):
             reqs.append(("match", [kind, S.mstate("en"), spelled, 2]))
     for _ in range(S.n_for(3000, 50000)):
@@ -590,6 +592,15 @@ def o_exception_types(ctx):
                 "\ud800", "\U0010ffff", " ", "\x85", "\x0c", "language", "Rule", "Background", "a", "é"]
     items = ["".join(r.choice(alphabet) for _ in range(r.randint(0, 40))) for _ in range(S.n_for(1500, 40000))]
     items += S.mutated_sources(S.n_for(300, 5000), salt="c01/mut")
+    # depth: thousands of lines of one kind in a row (blank lines inside a description, description lines, steps, rows,
+    # doc-string lines, comments, tag lines, scenarios, rules) -- nothing may recurse once per line
+    for n in (1500, 6000):
+        items += ["Feature: f\n  text\n" + "\n" * n + "  Scenario: s\n    Given g\n" + "   \n" * n,
+                  "Feature: f\n" + "  line\n" * n + "  Scenario: s\n    d\n" + "\n" * n + "    Given g\n",
+                  "Feature: f\n  Scenario: s\n" + "    Given g\n" * n, "Feature: f\n  Scenario: s\n    Given g\n" + "      | a |\n" * n,
+                  "Feature: f\n  Scenario: s\n    Given g\n      \"\"\"\n" + "\n" * n + "      x\n" * n + "      \"\"\"\n",
+                  "Feature: f\n" + "# c\n" * n + "@t\n" * n + "Scenario: s\n", "Feature: f\n" + "  Scenario: s\n    Given g\n" * n, "Feature: f\n" + "  Rule: r\n    Example: e\n      Given g\n" * n,
+                  "Feature: f\n  Scenario Outline: o\n    Given <a>\n" + "    Examples:\n      | a |\n      | 1 |\n" * n]
 
     def check(src):
         for stop in (False, True):
